@@ -31,7 +31,10 @@ Proof. exact down_on_activation. Qed.
 Print Assumptions C28_down_activation.
 
 (* all interleavings: after the lapse ANY events may follow (environment, other
-   watchers, k's own steps in any order) as long as k's session is not ended;
+   watchers, k's own steps in any order) as long as k's session is not ended and
+   none of its SetNode calls fails (ends k e: EStop k, EExpire k, EHandleFail k _;
+   a failed handler is logged and not retried by the code -- injected store
+   failures are outside the property's quantifier);
    once k has finished its own steps, a handler for n has run after the lapse
    and covered every workload that was recorded on n at the lapse *)
 Theorem C28_down_interleaved : forall evs1 evs2 k se n,
@@ -75,12 +78,29 @@ Theorem C28_handler : forall s k se j n,
 Proof. exact handler_step. Qed.
 Print Assumptions C28_handler.
 
-(* withActiveLock: at most one active watcher, in every history *)
-Theorem C28_one_active : forall evs k1 k2 se1 se2,
+(* withActiveLock.  In every history the key /selfmon/active, when it exists, is
+   bound to the lease of a running session (so at most one session holds it) *)
+Theorem C28_one_leased : forall evs k,
+  let s := run init evs in holder s = Some k -> active s k.
+Proof. exact one_leased. Qed.
+Print Assumptions C28_one_leased.
+
+(* two sessions run at the same time only while one of them has lost its lease
+   and has not noticed yet (the window after a lease expiry/revoke; it exists:
+   SelfmonProofs.double_active_window) *)
+Theorem C28_one_active : forall evs k1 k2,
   let s := run init evs in
-  phase s k1 = Active se1 -> phase s k2 = Active se2 -> k1 = k2.
+  active s k1 -> active s k2 -> k1 <> k2 -> stale s k1 \/ stale s k2.
 Proof. exact one_active. Qed.
 Print Assumptions C28_one_active.
+
+(* hypothesis made explicit: in histories without lease losses at most one watcher is active *)
+Theorem C28_one_active_no_loss : forall evs k1 k2 se1 se2,
+  Forall (fun e => ~ lease_loss e) evs ->
+  let s := run init evs in
+  phase s k1 = Active se1 -> phase s k2 = Active se2 -> k1 = k2.
+Proof. exact one_active_no_loss. Qed.
+Print Assumptions C28_one_active_no_loss.
 
 (* the defect repaired by 26913a3: with the init pass not waiting for the
    watch, a lapse between the two is missed for good (the session ends idle,
